@@ -223,7 +223,7 @@ def tally_g(v):
     return "accepted" if v["ok"] else "refused: " + v["why"]
 
 
-def run_batches(chk, items, batch, invariants, timeout=1500, exp=False):
+def run_batches(chk, items, batch, invariants, timeout=1500, exp=False, replay=None, tally=None):
     root = tlc.mkscratch("zcv-c10-")
     try:
         for start in range(0, len(items), batch):
@@ -240,7 +240,8 @@ def run_batches(chk, items, batch, invariants, timeout=1500, exp=False):
             with open(tf, "w") as f:
                 json.dump(doc, f)
             cfg = flow.cfg_text(constants={"N": len(mains)}, overrides=OVERRIDES, invariants=invariants)
-            flow.run_g(chk, "MC_ZSchema", cfg, replay_g, nontrivial=nontrivial_g, sample_every=3001, tally=tally_g,
+            flow.run_g(chk, "MC_ZSchema", cfg, replay or replay_g, nontrivial=nontrivial_g, sample_every=3001,
+                       tally=tally or tally_g,
                        workers=12, timeout=timeout, env={"TRACE_FILE": tf}, procs=8, batch=200)
             os.unlink(tf)
     finally:
